@@ -63,9 +63,14 @@ func (ctn Writer) ToCborBase64() ([]byte, error) {
 }
 
 // ToCborBase64Writer is the same as ToCborBase64, but with an io.Writer.
-func (ctn Writer) ToCborBase64Writer(w io.Writer) error {
+func (ctn Writer) ToCborBase64Writer(w io.Writer) (err error) {
 	w2 := base64.NewEncoder(base64.StdEncoding, w)
-	defer w2.Close()
+	defer func() {
+		// Close flushes the last partial base64 group: its error is a write error
+		if cerr := w2.Close(); err == nil {
+			err = cerr
+		}
+	}()
 	return ctn.ToCborWriter(w2)
 }
 
@@ -101,8 +106,13 @@ func (ctn Writer) ToCarBase64() ([]byte, error) {
 }
 
 // ToCarBase64Writer is the same as ToCarBase64, but with an io.Writer.
-func (ctn Writer) ToCarBase64Writer(w io.Writer) error {
+func (ctn Writer) ToCarBase64Writer(w io.Writer) (err error) {
 	w2 := base64.NewEncoder(base64.StdEncoding, w)
-	defer w2.Close()
+	defer func() {
+		// Close flushes the last partial base64 group: its error is a write error
+		if cerr := w2.Close(); err == nil {
+			err = cerr
+		}
+	}()
 	return ctn.ToCarWriter(w2)
 }
